@@ -308,3 +308,28 @@ def _show_any(x, depth) -> str:
     if isinstance(x, tuple):
         return "(" + ", ".join(_show_any(i, depth) for i in x) + ")"
     return str(x)
+
+
+# ------------------------------------------------------------------ renaming
+def rename_names(p: Poly, mapping: dict) -> Poly:
+    """Rename ("name", x) atoms at any depth (used to compare a function with a reference positionally)."""
+
+    def ren_any(x):
+        if isinstance(x, Fraction) or x is None or isinstance(x, (str, int, float, bool)):
+            return x
+        if isinstance(x, tuple):
+            if _is_key(x) and x != ():
+                return rename_names(Poly(dict(x)), mapping).key()
+            if x and x[0] == "name" and len(x) == 2 and isinstance(x[1], str):
+                return ("name", mapping.get(x[1], x[1]))
+            return tuple(ren_any(i) for i in x)
+        return x
+
+    out = Poly()
+    for m, c in p.terms.items():
+        term = Poly.const(c)
+        for a, e in m:
+            na = ren_any(a)
+            term = term * Poly.atom(na, e)
+        out = out + term
+    return out
